@@ -2350,7 +2350,8 @@ func (t *Topic) replySetDesc(sess *Session, asUid types.Uid, asChan bool,
 	}
 	if err == nil && len(sub) > 0 {
 		tname := t.name
-		if asChan {
+		if t.perUser[asUid].isChan {
+			// The subscription of a channel reader is stored under the channel name, whichever name the request uses.
 			tname = types.GrpToChn(tname)
 		}
 		err = store.Subs.Update(tname, asUid, sub)
